@@ -70,8 +70,9 @@ def radix(repo: Repo, chk: Check) -> None:
     chk.rule(
         "C09.radix",
         "each Stride(step, bound) inserted takes its step from the running extent and the next assignment to the running "
-        "extent (on every path) is `extent * bound` with the same bound; the running extent starts at 1; dimensions "
-        "without a stride get Stride(extent, 1); tiling by the schedule bound only under `remaining % schedule bound == 0`",
+        "extent (on every path) is `extent * bound` with the same bound; the running extent starts at 1; after the schedule "
+        "loops every dimension gets an outer stride for the size left uncovered (shape // product of its assigned bounds); tiling by the schedule "
+        "bound only under `remaining % schedule bound == 0`",
         floor=6,
     )
     strides = [s for s in fl.calls("Stride") if s.reachable and len(s.node.args) == 2 and s.loops]
@@ -85,11 +86,24 @@ def radix(repo: Repo, chk: Check) -> None:
             raise AnalysisError(f"{s.where()}: the step of the new stride is not the running-extent variable")
         ext = step.id
         loop = [l for l in s.loops if isinstance(l, ast.For)][-1]
-        body = loop.body
-        i = next((k for k, st in enumerate(body) if any(x is s.node for x in ast.walk(st))), None)
-        if i is None:
+        # the innermost statement list holding the construction, then outwards: the first later store to the running extent counts
+        def holder(stmts):
+            for k, st in enumerate(stmts):
+                if any(x is s.node for x in ast.walk(st)):
+                    for fld in ("body", "orelse"):
+                        sub = getattr(st, fld, None)
+                        if isinstance(sub, list) and sub and isinstance(sub[0], ast.stmt):
+                            h = holder(sub)
+                            if h is not None and h[2]:
+                                return h
+                    lat = [x for x in stmts[k + 1:] if any(isinstance(y, ast.Name) and y.id == ext and isinstance(y.ctx, ast.Store) for y in ast.walk(x))]
+                    return stmts, k, lat
+            return None
+
+        h = holder(loop.body)
+        if h is None:
             raise AnalysisError(f"{s.where()}: statement of the stride construction not found at loop level")
-        later = [st for st in body[i + 1 :] if any(isinstance(x, ast.Name) and x.id == ext and isinstance(x.ctx, ast.Store) for x in ast.walk(st))]
+        body, i, later = h
         ok = len(later) == 1 and isinstance(later[0], ast.Assign) and norm.any_match(["$e * $b", "$b * $e"], later[0].value, {"e": ext, "b": bound}) is not None
         ok_aug = len(later) == 1 and isinstance(later[0], ast.AugAssign) and isinstance(later[0].op, ast.Mult) and ast.unparse(later[0].value) == ast.unparse(bound)
         chk.result(ok or ok_aug, "C09.radix", f"{f.key}:extent-times-bound", s.where(),
@@ -118,11 +132,32 @@ def radix(repo: Repo, chk: Check) -> None:
             and isinstance(s.node.value, ast.Constant)]
     chk.result(bool(init) and all(s.node.value.value == 1 for s in init), "C09.radix", f"{f.key}:starts-at-1", init[0].where() if init else f.where,
                "the running extent starts at 1 for every operand")
+    # coverage: after the schedule loops every dimension gets a stride for the size that remains (F-32)
+    cover = [s for s in main if any(isinstance(l, ast.For) and norm.contains(l.iter, T("enumerate($st)")) for l in s.loops)
+             and depends_on(fl.cone(s.node.args[1], s, inline=0), "$m.get_shape()[$d]") and not any(
+                 isinstance(l, ast.For) and norm.contains(l.iter, T("$sch.bounds[::-1]")) for l in s.loops)]
     okf = False
+    wheref = fill[0].where() if fill else f.where
+    for s in cover:
+        wheref = s.where()
+        c = fl.cone(s.node.args[1], s, inline=0)
+        core = norm.primary(c)
+        while isinstance(core, ast.Call) and isinstance(core.func, ast.Name) and core.func.id in ("__phi__", "__ctl__") and core.args:
+            core = core.args[1] if core.func.id == "__phi__" and len(core.args) > 1 else core.args[0]
+        if isinstance(core, ast.IfExp) and isinstance(core.orelse, ast.Constant) and core.orelse.value == 1:
+            core = core.body
+        m = norm.match(T("$sz // $cv"), core)
+        uses_assigned = m is not None and norm.contains(m["sz"], T("$m.get_shape()[$d]")) and any(
+            isinstance(n, ast.Call) and callee_name(n) == "prod" and norm.contains(n, T("$x.bound")) for n in ast.walk(m["cv"])) and not isinstance(norm.primary(m["sz"]), ast.BinOp)
+        guarded = any(fct.kind == "atom" and (norm.any_match(["$r > 1 or not len($x)", "$r > 1 or not $x", "not len($x) or $r > 1", "$r > 1", "$r != 1 or not len($x)"], fct.expr) is not None) for fct in s.facts)
+        okf = okf or (uses_assigned and guarded)
     for s in fill:
-        okf = okf or (ast.unparse(s.node.args[0]) == main[0].node.args[0].id and s.node.args[1].value == 1 and bool(has_fact(s, ["not len($x)", "len($x) == 0", "not $x"])))
-    chk.result(okf, "C09.radix", f"{f.key}:fill", fill[0].where() if fill else f.where,
-               "dimensions without any stride get Stride(running extent, 1)", "dimensions that received no stride are not filled with a unit-bound stride at the running extent")
+        # the old form (a unit-bound filler for dimensions without any stride) covers the dimension only if its size is 1
+        okf = okf or False
+    chk.result(okf, "C09.radix", f"{f.key}:fill", wheref,
+               "every dimension gets an outer stride for the size the schedule loops left uncovered (shape // product of the assigned bounds), so the layout covers the operand's shape",
+               "dimensions the schedule does not walk entirely are not covered: a dimension without any stride gets bound 1 whatever its size (or partially tiled dimensions keep the "
+               "product of the schedule bounds), so the layout does not cover the operand's shape")
     # outer strides are inserted in front (outermost first in the list)
     ins = [s for s in fl.calls("insert") if s.reachable and any(x is main[0].node for x in ast.walk(s.node))]
     chk.result(bool(ins) and isinstance(ins[0].node.args[0], ast.Constant) and ins[0].node.args[0].value == 0, "C09.radix", f"{f.key}:outer-first", main[0].where(),
